@@ -104,3 +104,8 @@ package ratelimiter
 //@   ghost before Delete :: droppedOnlyEquivalent := now() - asptr(value, *bucket).lastRefill >= rl.maxTokens * rl.refillRate
 //@   ensures a_dropped_bucket_had_been_idle_for_max_tokens_refill_periods: droppedOnlyEquivalent
 //@   modifies droppedOnlyEquivalent, rl.buckets.has, rl.buckets.val, rl.buckets.dyn
+
+// the limiter runs with exactly the capacity and refill period it is built with
+//@ func NewTokenBucketRateLimiter
+//@   props C09 C18
+//@   ensures built_as_configured: result != nil && fresh(result) && result.maxTokens == maxTokens && result.refillRate == refillRate
